@@ -594,6 +594,25 @@ func genHistory(t *rapid.T, d *Desc, o HistOpts) []Step {
 			for i := 0; i < k; i++ {
 				h.tap(c)
 			}
+		case kind < 90 && o.Repeats && len(h.noteKeys) > 0 && rapid.Bool().Draw(t, "otherEvent"):
+			// what else an event node delivers between the key events: scan codes (EV_MSC before every key of a keyboard), LED and
+			// switch states, relative movement, and EV_SYN events other than the report separator - SYN_DROPPED (3) above all,
+			// the kernel's notice that its buffer overflowed. None of them is a key event, whatever code and value it carries.
+			c := h.noteKeys[rapid.IntRange(0, len(h.noteKeys)-1).Draw(t, "key")]
+			typ := rapid.SampledFrom([]uint16{0, 0, 0, 4, 4, 2, 0x11, 5, 0x12, 0x14, 0x15, 0x17, 0x1f}).Draw(t, "otherType")
+			code := c &^ (twinBit | nodeBit)
+			val := rapid.SampledFrom([]int32{0, 1, 1, 2, -1, 458756}).Draw(t, "otherVal")
+			switch typ {
+			case 0:
+				code = rapid.SampledFrom([]uint16{3, 3, 1, 2, 4, 15}).Draw(t, "synCode") // never 0: SYN_REPORT fences the steps
+			case 4:
+				code = rapid.SampledFrom([]uint16{4, 4, 5, code}).Draw(t, "mscCode")
+			default:
+				if rapid.Bool().Draw(t, "smallCode") {
+					code = uint16(rapid.IntRange(0, 12).Draw(t, "otherCode"))
+				}
+			}
+			h.steps = append(h.steps, Step{T: "other", Typ: typ, Sub: h.sub[c], Node: int(c & nodeBit / nodeBit), Code: code, Val: val})
 		case kind < 90 && o.Repeats && len(h.noteKeys) > 0:
 			c := h.noteKeys[rapid.IntRange(0, len(h.noteKeys)-1).Draw(t, "key")]
 			h.steps = append(h.steps, Step{T: "rep", Sub: h.sub[c], Node: int(c & nodeBit / nodeBit), Code: c &^ (twinBit | nodeBit), Val: 2})
@@ -670,6 +689,8 @@ func genHistory(t *rapid.T, d *Desc, o HistOpts) []Step {
 				h.steps = append(h.steps, Step{T: "abs", Sub: a.Sub, Code: a.Code, Val: restValue(t, a)})
 				delete(h.axisOut, axisKey(a))
 			}
+		case o.MidiIn && rapid.IntRange(0, 3).Draw(t, "midiOther") == 0:
+			h.steps = append(h.steps, Step{T: "midi", Midi: otherMidiMessage(t)})
 		case o.MidiIn:
 			ch := rapid.IntRange(0, 15).Draw(t, "midiCh")
 			note := rapid.IntRange(0, 127).Draw(t, "midiNote")
@@ -709,4 +730,38 @@ func genBystander(t *rapid.T, d *Desc) []Step {
 		}
 	}
 	return h.steps
+}
+
+// otherMidiMessage: a legal MIDI message that is neither Note On nor Note Off - what else arrives on an input port next to the
+// notes: controllers, pitch bend, program change and pressure (two and three bytes), the single-byte real-time messages
+// (clock, start, continue, stop, active sensing, system reset), song position / select, tune request, a complete SysEx.
+func otherMidiMessage(t *rapid.T) []byte {
+	ch := byte(rapid.IntRange(0, 15).Draw(t, "otherMidiCh"))
+	d1 := byte(rapid.IntRange(0, 127).Draw(t, "otherMidiD1"))
+	d2 := byte(rapid.IntRange(0, 127).Draw(t, "otherMidiD2"))
+	switch rapid.IntRange(0, 13).Draw(t, "otherMidiKind") {
+	case 0:
+		return []byte{0xB0 | ch, d1, d2}
+	case 1:
+		return []byte{0xB0 | ch, rapid.SampledFrom([]byte{120, 121, 123, 64, 0, 32}).Draw(t, "modeCC"), d2}
+	case 2:
+		return []byte{0xE0 | ch, d1, d2}
+	case 3:
+		return []byte{0xC0 | ch, d1}
+	case 4:
+		return []byte{0xD0 | ch, d1}
+	case 5:
+		return []byte{0xA0 | ch, d1, d2}
+	case 6:
+		return []byte{0xF2, d1, d2}
+	case 7:
+		return []byte{0xF3, d1}
+	case 8:
+		return []byte{0xF6}
+	case 9:
+		return []byte{0xF0, 0x7E, 0x7F, 0x06, 0x01, 0xF7}
+	case 10:
+		return []byte{0xFF} // system reset
+	}
+	return []byte{rapid.SampledFrom([]byte{0xF8, 0xFA, 0xFB, 0xFC, 0xFE, 0xFF}).Draw(t, "realTime")}
 }
